@@ -214,13 +214,18 @@ def vauth_design(v, w, tier):
     # vacuity: each witness predicate must be reachable (its negation, checked as an invariant, must be violated)
     base = open(os.path.join(d, "Vauth_mc_witness.cfg")).read()
     head = base[:base.index("INVARIANTS")]
-    for wname in VAUTH_WITNESSES:
-        with open(os.path.join(d, "w_%s.cfg" % wname), "w") as f:
+    def witness(wname):
+        dw = w.sub("w-" + wname)  # own directory: the runs go in parallel
+        vlib.stage_spec(dw)
+        with open(os.path.join(dw, "w_%s.cfg" % wname), "w") as f:
             f.write(head + "INVARIANT %s\nCHECK_DEADLOCK FALSE\n" % wname)
-        r = vlib.tlc(d, "Vauth_mc", "w_%s.cfg" % wname, workers=2, timeout=600)
-        if not r["violated"]:
-            raise Infra("design model Vauth_mc is vacuous: %s is unreachable" % wname)
-    r = vlib.tlc(d, "Vauth_mc", "Vauth_mc.cfg", workers=8 if tier == "thorough" else 4, timeout=3000)
+        return wname, vlib.tlc(dw, "Vauth_mc", "w_%s.cfg" % wname, workers=1, timeout=600)
+
+    with ThreadPoolExecutor(max_workers=4) as ex:
+        for wname, r in ex.map(witness, VAUTH_WITNESSES):
+            if not r["violated"]:
+                raise Infra("design model Vauth_mc is vacuous: %s is unreachable" % wname)
+    r = vlib.tlc(d, "Vauth_mc", "Vauth_mc.cfg", workers=8, timeout=3000)
     if r["violated"]:
         raise Infra("design model Vauth_mc violates one of its own laws (specification bug):\n" + r["out"][-3000:])
     v.add_mc(r)
@@ -329,7 +334,10 @@ def check_c16(pid, tier, seed, replay):
             return vauth_replay(pid, w, replay)
         vlib.build("vh_lanes")
         sz = VAUTH_SIZES[tier]
+        import time as _t
+        t0 = _t.time()
         d, nb1 = vauth_design(v, w, tier)
+        t1 = _t.time()
         b1 = [json.loads(x) for x in vlib.read_lines(os.path.join(d, "behaviours_b1.ndjson"))]
         b1.sort(key=lambda b: b["id"])
         seeds = [seed] if tier == "quick" else [seed, seed * 7919 + 1, seed * 104729 + 2]
@@ -340,11 +348,14 @@ def check_c16(pid, tier, seed, replay):
         path = os.path.join(d, "behaviours.ndjson")
         with open(path, "w") as f:
             f.write("\n".join(json.dumps(b) for b in allb) + "\n")
+        t2 = _t.time()
         lines, nops = vauth_run(w, path, "run", chunk=max(sz["per_family"], 48))
+        t3 = _t.time()
         ngen = sum(1 for x in lines if '"ev":"Genesis"' in x)
         if ngen != len(allb):
             raise Infra("harness executed %d of %d behaviours" % (ngen, len(allb)))
         errs, cov, rt = vauth_validate(w, "val", lines)
+        log("phases: design+witnesses %.0fs, simulate %.0fs, harness %.0fs, TLC judge %.0fs" % (t1 - t0, t2 - t1, t3 - t2, _t.time() - t3))
         v.cov["states"] += rt["distinct"]
         v.cov["transitions"] += rt["generated"]
         if any(g == "Domain" for _, g, _ in errs):
